@@ -89,7 +89,7 @@ def count_type_exprs(t):
 
 
 def plan(tier, seed):
-    n = 1500 if tier == "quick" else 30000
+    n = 15000 if tier == "quick" else 150000
     return [("random", n // 32, i) for i in range(32)]
 
 
